@@ -19,6 +19,9 @@ def cases(tier, seed):
                 r1 = rows[k]
                 r2 = rows[(k * 7 + 3) % len(rows)]
                 yield dict(single=False, skip_errors=skip, remove=remove, rows=[list(r1), list(r2)])
+                if k % 9 == 0:
+                    # frames made of categorical columns only (no numeric column to carry the index along)
+                    yield dict(single=False, skip_errors=skip, remove=remove, rows=[list(r1), list(r2)], no_numeric=True)
     for skip in (False, True):
         for k, r in enumerate(itertools.product(VALUES["color"], VALUES["shape"])):
             yield dict(single=True, skip_errors=skip, remove=None, rows=[[r[0], r[1], "S"], ["red", "sq", "L"]])
@@ -61,6 +64,8 @@ def check(c):
     idx = [100 + i for i in range(len(c["rows"]))]
     test = pandas.DataFrame({"color": pandas.Series([r[0] for r in c["rows"]], dtype=object, index=idx), "x": pandas.Series([10.0 + i for i in range(len(c["rows"]))], index=idx),
                              "shape": pandas.Series([r[1] for r in c["rows"]], dtype=object, index=idx), "size": pandas.Series([r[2] for r in c["rows"]], dtype=object, index=idx)})
+    if c.get("no_numeric"):
+        train, test = train.drop(columns=["x"]), test.drop(columns=["x"])
     test0 = test.copy()
     m = CategoriesToIntegers(columns=cats, remove=c["remove"], skip_errors=c["skip_errors"], single=c["single"])
     if m.fit(train) is not m:
@@ -79,8 +84,8 @@ def check(c):
         return None if ((unseen or removed_hit) and not c["skip_errors"]) else dict(**{"class": "unexpected-error"}, what="ValueError although every category was seen or skip_errors=True")
     if unseen and not c["skip_errors"]:
         return dict(**{"class": "unseen-not-refused"}, what="unseen category accepted without skip_errors")
-    if list(out.index) != list(test.index) or not numpy.array_equal(out["x"].values, test0["x"].values):
-        return dict(**{"class": "passthrough"}, what="numeric column or index not kept")
+    if list(out.index) != list(test.index) or (not c.get("no_numeric") and not numpy.array_equal(out["x"].values, test0["x"].values)):
+        return dict(**{"class": "passthrough"}, what="numeric column or index not kept (index %r, expected %r)" % (list(out.index), list(test.index)))
     if c["single"]:
         for i, r in enumerate(c["rows"]):
             for k, v in zip(cats, r):
